@@ -793,7 +793,7 @@ def calculate_costs(cc_type, voltage_level, interval,
 
         capacity_or_basic_costs = "capacity costs"
 
-        if cc_type.startswith("fixed"):
+        if cc_type.startswith("fixed") or cc_type.startswith("variable"):
             # strategies without differentiation between fixed and flexible load
             information_fix_flex = "no differentiation between fixed and flexible load"
             commodity_costs_eur_per_year_fix = information_fix_flex
